@@ -378,6 +378,9 @@ fn projects() -> Vec<Vec<(&'static str, &'static str)>> {
         vec![("Main.prql", "from t"), ("one.prql", "let x = = 1"), ("two.prql", "let y = (from t | select {a,, b})")],
         // an error in one module
         vec![("Main.prql", "from t | derive x = helpers.double a"), ("helpers.prql", "let double = v -> v * nosuch"), ("zz.prql", "let unused = 1")],
+        // two files whose names start with an uppercase letter: which one is the root?
+        vec![("Alpha.prql", "from alpha_table | take 1"), ("Beta.prql", "from beta_table | take 2"), ("helpers.prql", "let k = 1")],
+        vec![("Zeta.prql", "from zeta_table"), ("Alpha.prql", "let k = 2"), ("Main.prql", "from main_table")],
         // a syntax error in one module and one in the root
         vec![("Main.prql", "from t | select {a, }}"), ("helpers.prql", "let double = = 2"), ("more.prql", "let x = 1")],
     ]
